@@ -584,52 +584,323 @@ Proof.
   - apply IH.
 Qed.
 
-Lemma loaded_published_gen d : forall fs cf before,
+(* key and certificate are read from the files ONE configuration names, at one moment: whatever the loader
+   (current or old) handed back, an entity's backend key and its certificate are one pair *)
+Lemma build_at_pair fs p k c : build_at fs p = Some (k, c) -> k = c /\ fread fs p = Some k.
+Proof. unfold build_at. destruct (fread fs p); [intros [= <- <-]; auto|discriminate]. Qed.
+
+Lemma build_slot_pair fs oc : fst (build_slot fs oc) = snd (build_slot fs oc).
+Proof.
+  unfold build_slot. destruct oc as [p|]; [|reflexivity].
+  destruct (build_at fs p) as [[k c]|] eqn:B; [|reflexivity]. apply build_at_pair in B as [-> _]. reflexivity.
+Qed.
+
+Lemma loaded_fst_snd fixed d : forall fs cf ld,
+  map fst (loaded_gen fixed fs cf ld d) = map snd (loaded_gen fixed fs cf ld d).
+Proof.
+  assert (O : forall fs p l l', map (@fst nat nat) l = map snd l' ->
+             map fst (ocons (build_at fs p) l) = map snd (ocons (build_at fs p) l')).
+  { intros fs p l l' H. destruct (build_at fs p) as [[k c]|] eqn:B; cbn [ocons map fst snd]; [|exact H].
+    apply build_at_pair in B as [-> _]. rewrite H. reflexivity. }
+  induction d as [|s r IH]; intros fs cf ld; [reflexivity|].
+  destruct s as [p k st how|p|j|p how par|c|c|dr b p|dr b|dr b a sp|p]; cbn [loaded_gen]; try apply IH; try (apply O, IH).
+  - destruct (Nat.eqb how 3); apply IH.
+  - destruct (nth_error cf c); [apply O|]; apply IH.
+  - destruct (load_module fixed ld dr b) as [oc ld']. cbn [map]. rewrite build_slot_pair, IH. reflexivity.
+Qed.
+
+Lemma deploy_keys_certs d : deploy_keys d = deploy_certs d.
+Proof. apply loaded_fst_snd. Qed.
+
+Lemma deploy_keys_certs_v0 d : deploy_keys_v0 d = deploy_certs_v0 d.
+Proof. apply loaded_fst_snd. Qed.
+
+Lemma deploy_keys_certs_both d : deploy_keys d = deploy_certs d /\ deploy_keys_v0 d = deploy_certs_v0 d.
+Proof. split; [apply deploy_keys_certs|apply deploy_keys_certs_v0]. Qed.
+
+(* ---------- the model's state against the script read backwards (Spec) ---------- *)
+Lemma src_now_versions dr b before p : src_now dr b before = Some p -> In p (src_versions dr b before).
+Proof.
+  induction before as [|s r IH]; [discriminate|].
+  destruct s; cbn [src_now src_versions]; try exact IH.
+  - destruct (same_file dr b dir base); [intros [= ->]; left; reflexivity|exact IH].
+  - destruct (same_file dr b dir base); [discriminate|exact IH].
+Qed.
+
+Lemma path_find_read c sp b d1 c1 : path_find c sp b = Some (d1, c1) -> cf_read c d1 b = Some c1.
+Proof.
+  induction sp as [|d r IH]; [discriminate|]. cbn [path_find].
+  destruct (cf_read c d b) eqn:E; [intros [= <- <-]; exact E|exact IH].
+Qed.
+
+Definition st_files (ld : lstate) (before : list dstep) : Prop :=
+  forall d b, cf_read (cfiles ld) d b = src_now d b before.
+
+Lemma st_files_write ld before dr b p :
+  st_files ld before -> st_files (cf_write ld dr b (Some p)) (DWrite dr b p :: before).
+Proof. intros H d b'. cbn [cf_write cfiles cf_read src_now]. unfold same_file. destruct (_ && _); [reflexivity|apply H]. Qed.
+
+Lemma st_files_unlink ld before dr b :
+  st_files ld before -> st_files (cf_write ld dr b None) (DUnlink dr b :: before).
+Proof. intros H d b'. cbn [cf_write cfiles cf_read src_now]. unfold same_file. destruct (_ && _); [reflexivity|apply H]. Qed.
+
+Lemma load_module_cfiles fixed ld dr b : cfiles (snd (load_module fixed ld dr b)) = cfiles ld.
+Proof.
+  unfold load_module. destruct (mod_find (mods ld) b); [reflexivity|]. destruct (path_find _ _ b); reflexivity.
+Qed.
+
+(* what sys.modules holds is, for every module, something its OWN file has said *)
+Definition st_mods (ld : lstate) (before : list dstep) : Prop :=
+  forall b d0 c0, mod_find (mods ld) b = Some (d0, c0) -> In c0 (src_versions d0 b before).
+
+(* ... and, as long as no file is touched after a load of its base name, what that file still says *)
+Definition st_mods_fresh (ld : lstate) (before : list dstep) : Prop :=
+  forall b d0 c0, mod_find (mods ld) b = Some (d0, c0) ->
+    cf_read (cfiles ld) d0 b = Some c0 /\ base_loaded b before = true.
+
+(* one load, files_present: the CONFIG handed back is one the file asked for has said (or the load raises) *)
+Lemma load_module_own ld before dr b pn :
+  st_files ld before -> st_mods ld before -> src_now dr b before = Some pn ->
+  (forall p, fst (load_module true ld dr b) = Some p -> In p (src_versions dr b before))
+  /\ st_mods (snd (load_module true ld dr b)) before.
+Proof.
+  intros HF HM Hn. assert (Hr : cf_read (cfiles ld) dr b = Some pn) by (rewrite HF; exact Hn).
+  unfold load_module. destruct (mod_find (mods ld) b) as [[d0 c0]|] eqn:M.
+  - cbn [fst snd]. split; [|intros b' d' c' H; apply HM; exact H].
+    intros p. unfold answer. rewrite Hr. destruct (Nat.eqb d0 dr) eqn:E.
+    + apply Nat.eqb_eq in E. subst d0. intros [= <-]. apply (HM b dr c0 M).
+    + destruct (cf_read (cfiles ld) d0 b); [|discriminate]. intros [= <-]. apply src_now_versions, Hn.
+  - cbn [path_find]. rewrite Hr. cbn [fst snd]. split.
+    + intros p. unfold answer. rewrite Hr, Nat.eqb_refl. intros [= <-]. apply src_now_versions, Hn.
+    + intros b' d' c'. cbn [mods mod_find]. destruct (Nat.eqb b b') eqn:E.
+      * apply Nat.eqb_eq in E. subst b'. intros [= <- <-]. apply src_now_versions, Hn.
+      * apply HM.
+Qed.
+
+(* one load, files_present and no_reedit: the CONFIG handed back is what the file asked for says NOW *)
+Lemma load_module_fresh ld before dr b a sp pn :
+  st_files ld before -> st_mods_fresh ld before -> src_now dr b before = Some pn ->
+  fst (load_module true ld dr b) = Some pn
+  /\ st_mods_fresh (snd (load_module true ld dr b)) (DLoadFile dr b a sp :: before).
+Proof.
+  intros HF HM Hn. assert (Hr : cf_read (cfiles ld) dr b = Some pn) by (rewrite HF; exact Hn).
+  unfold load_module. destruct (mod_find (mods ld) b) as [[d0 c0]|] eqn:M.
+  - cbn [fst snd]. destruct (HM b d0 c0 M) as [R0 _]. split.
+    + unfold answer. rewrite Hr. destruct (Nat.eqb d0 dr) eqn:E.
+      * apply Nat.eqb_eq in E. subst d0. rewrite R0 in Hr. exact Hr.
+      * rewrite R0. reflexivity.
+    + intros b' d' c' H. cbn [mods] in H. destruct (HM b' d' c' H) as [R1 L1]. split; [exact R1|].
+      cbn [base_loaded]. rewrite L1. apply orb_true_r.
+  - cbn [path_find]. rewrite Hr. cbn [fst snd]. split.
+    + unfold answer. rewrite Hr, Nat.eqb_refl. reflexivity.
+    + intros b' d' c'. cbn [mods mod_find cfiles base_loaded]. destruct (Nat.eqb b b') eqn:E.
+      * apply Nat.eqb_eq in E. subst b'. intros [= <- <-]. split; [exact Hr|reflexivity].
+      * intros H. destruct (HM b' d' c' H) as [R1 L1]. rewrite L1. split; [exact R1|reflexivity].
+Qed.
+
+Lemma st_mods_fresh_touch ld before dr b v s :
+  st_mods_fresh ld before -> base_loaded b before = false ->
+  (forall b', base_loaded b' (s :: before) = base_loaded b' before) ->
+  st_mods_fresh (cf_write ld dr b v) (s :: before).
+Proof.
+  intros HM Hb Hs b' d' c' H. cbn [cf_write mods] in H. destruct (HM b' d' c' H) as [R L]. rewrite Hs. split; [|exact L].
+  cbn [cf_write cfiles cf_read]. destruct (Nat.eqb dr d' && Nat.eqb b b') eqn:E; [|exact R].
+  apply andb_true_iff in E as [_ E]. apply Nat.eqb_eq in E. subst b'. congruence.
+Qed.
+
+Lemma build_slot_spec fs before p :
+  (forall q, fread fs q = last_install q before) ->
+  build_slot fs (Some p) = (slot (last_install p before), slot (last_install p before)).
+Proof. intros H. unfold build_slot, build_at. rewrite H. destruct (last_install p before); reflexivity. Qed.
+
+Ltac side Hs Fs Ms := first [assumption | apply Hs; reflexivity | apply Fs; reflexivity | apply Ms; reflexivity].
+
+(* STRICT: as long as every file asked for exists and no file is touched after a load of its name, the pair an
+   entity signs with and the certificate it publishes are the pair its own configuration names when it is built *)
+Lemma loaded_published_gen d : forall fs cf ld before,
   (forall p, fread fs p = last_install p before) ->
   (forall c, nth_error cf c = conf_path c before) ->
   length cf = nconf before ->
-  map fst (loaded fs cf d) = certs_from before d /\ map snd (loaded fs cf d) = certs_from before d.
+  st_files ld before -> st_mods_fresh ld before ->
+  files_present_from before d = true -> no_reedit_from before d = true ->
+  map fst (loaded fs cf ld d) = certs_from before d /\ map snd (loaded fs cf ld d) = certs_from before d.
 Proof.
-  induction d as [|s r IH]; intros fs cf before H HC HL; [split; reflexivity|].
-  destruct s as [p k st how|p|j|p how par|c|c]; cbn [loaded certs_from].
-  - apply IH; [|exact HC|exact HL]. intros q. cbn [fread last_install]. destruct (Nat.eqb p q); [reflexivity|apply H].
+  unfold loaded.
+  induction d as [|s r IH]; intros fs cf ld before H HC HL HF HM GP GE; [split; reflexivity|].
+  assert (Hs : forall s', (forall q, last_install q (s' :: before) = last_install q before) ->
+                          forall q, fread fs q = last_install q (s' :: before)) by (intros s' E q; rewrite E; apply H).
+  assert (Fs : forall s', (forall x y, src_now x y (s' :: before) = src_now x y before) -> st_files ld (s' :: before))
+    by (intros s' E x y; rewrite E; apply HF).
+  assert (Ms : forall s', (forall b', base_loaded b' (s' :: before) = base_loaded b' before) -> st_mods_fresh ld (s' :: before)).
+  { intros s' E b' d' c' M. destruct (HM b' d' c' M) as [R L]. rewrite E. auto. }
+  destruct s as [p k st how|p|j|p how par|c|c|dr b p|dr b|dr b a sp|p]; cbn [loaded_gen certs_from];
+    cbn [files_present_from no_reedit_from] in GP, GE.
+  - apply IH; try side Hs Fs Ms.
+    intros q. cbn [fread last_install]. destruct (Nat.eqb p q); [reflexivity|apply H].
   - unfold build_at. rewrite H.
-    destruct (IH fs cf (DCreate p :: before)) as [A B]; [intros q; cbn [last_install]; apply H|exact HC|exact HL|].
+    destruct (IH fs cf ld (DCreate p :: before)) as [A B]; try side Hs Fs Ms.
     destruct (last_install p before); cbn [ocons map fst snd]; [rewrite A, B; split; reflexivity|split; assumption].
-  - apply IH; [intros q; cbn [last_install]; apply H|exact HC|exact HL].
+  - apply IH; try side Hs Fs Ms.
   - destruct (Nat.eqb how 3) eqn:E3.
-    + apply IH; [intros q; cbn [last_install]; apply H| |rewrite upd_length; cbn [nconf]; rewrite E3; exact HL].
+    + apply IH; try side Hs Fs Ms; [|rewrite upd_length; cbn [nconf]; rewrite E3; exact HL].
       intros c. cbn [conf_path]. rewrite E3. destruct (Nat.eqb par c) eqn:E.
       * apply Nat.eqb_eq in E. subst c. rewrite nth_error_upd_same, HC. reflexivity.
       * apply Nat.eqb_neq in E. rewrite nth_error_upd_other by exact E. apply HC.
-    + apply IH; [intros q; cbn [last_install]; apply H| |rewrite app_length; cbn [nconf length]; rewrite E3, HL; apply Nat.add_1_r].
+    + apply IH; try side Hs Fs Ms; [|rewrite app_length; cbn [nconf length]; rewrite E3, HL; apply Nat.add_1_r].
       intros c. cbn [conf_path]. rewrite E3, nth_error_snoc, HL. destruct (Nat.eqb (nconf before) c); [reflexivity|apply HC].
   - rewrite HC.
-    destruct (IH fs cf (DBuild c :: before)) as [A B]; [intros q; cbn [last_install]; apply H|exact HC|exact HL|].
+    destruct (IH fs cf ld (DBuild c :: before)) as [A B]; try side Hs Fs Ms.
     destruct (conf_path c before) as [p|]; cbn [cert_at]; [|split; assumption].
     unfold build_at. rewrite H.
     destruct (last_install p before); cbn [ocons map fst snd]; [rewrite A, B; split; reflexivity|split; assumption].
-  - apply IH; [intros q; cbn [last_install]; apply H|exact HC|exact HL].
+  - apply IH; try side Hs Fs Ms.
+  - apply andb_true_iff in GE as [Gb GE]. apply negb_true_iff in Gb.
+    apply IH; try side Hs Fs Ms; [apply st_files_write; exact HF|].
+    apply st_mods_fresh_touch; [exact HM|exact Gb|reflexivity].
+  - apply andb_true_iff in GE as [Gb GE]. apply negb_true_iff in Gb.
+    apply IH; try side Hs Fs Ms; [apply st_files_unlink; exact HF|].
+    apply st_mods_fresh_touch; [exact HM|exact Gb|reflexivity].
+  - apply andb_true_iff in GP as [Gn GP]. destruct (src_now dr b before) as [pn|] eqn:N; [|discriminate].
+    destruct (load_module_fresh ld before dr b a sp pn HF HM N) as [L1 L2].
+    pose proof (load_module_cfiles true ld dr b) as L3.
+    destruct (load_module true ld dr b) as [oc ld']. cbn [fst snd] in L1, L2, L3. subst oc.
+    rewrite (build_slot_spec fs before pn H). cbn [map fst snd cert_at].
+    destruct (IH fs cf ld' (DLoadFile dr b a sp :: before)) as [A B]; try side Hs Fs Ms.
+    { intros x y. rewrite L3. apply HF. }
+    rewrite A, B. split; reflexivity.
+  - unfold build_at. rewrite H.
+    destruct (IH fs cf ld (DFactory p :: before)) as [A B]; try side Hs Fs Ms.
+    destruct (last_install p before); cbn [ocons map fst snd]; [rewrite A, B; split; reflexivity|split; assumption].
 Qed.
 
-Lemma deploy_published d : deploy_keys d = published d /\ deploy_certs d = published d.
-Proof. apply loaded_published_gen; [intros p; reflexivity|intros [|c]; reflexivity|reflexivity]. Qed.
+Lemma deploy_published d :
+  files_present d = true -> no_reedit d = true -> deploy_keys d = published d /\ deploy_certs d = published d.
+Proof.
+  intros GP GE. apply loaded_published_gen; try assumption;
+    [intros p; reflexivity|intros [|c]; reflexivity|reflexivity|intros x y; reflexivity|intros b d0 c0; discriminate].
+Qed.
+
+(* scripts without configuration files (all of rounds 1-4) meet both hypotheses *)
+Fixpoint no_files (d : list dstep) : bool :=
+  match d with
+  | [] => true
+  | (DWrite _ _ _ | DUnlink _ _ | DLoadFile _ _ _ _) :: _ => false
+  | _ :: r => no_files r
+  end.
+
+Lemma no_files_guards d : no_files d = true -> forall before,
+  files_present_from before d = true /\ no_reedit_from before d = true.
+Proof.
+  induction d as [|s r IH]; intros H before; [split; reflexivity|].
+  destruct s; cbn [no_files] in H; try discriminate; cbn [files_present_from no_reedit_from]; apply IH; exact H.
+Qed.
+
+Lemma deploy_published_no_files d : no_files d = true -> deploy_keys d = published d /\ deploy_certs d = published d.
+Proof. intros H. destruct (no_files_guards d H []) as [A B]. apply deploy_published; assumption. Qed.
+
+(* OWN SOURCE: as long as every file asked for exists - edited since it was first loaded or not - the certificate
+   (= the key pair, deploy_keys_certs) of every entity is one its own configuration source accounts for *)
+Lemma loaded_own_source_gen d : forall fs cf ld before,
+  (forall p, fread fs p = last_install p before) ->
+  (forall c, nth_error cf c = conf_path c before) ->
+  length cf = nconf before ->
+  st_files ld before -> st_mods ld before ->
+  files_present_from before d = true ->
+  own_source (accounted_from before d) (map snd (loaded fs cf ld d)).
+Proof.
+  unfold loaded.
+  induction d as [|s r IH]; intros fs cf ld before H HC HL HF HM GP; [exact I|].
+  assert (Hs : forall s', (forall q, last_install q (s' :: before) = last_install q before) ->
+                          forall q, fread fs q = last_install q (s' :: before)) by (intros s' E q; rewrite E; apply H).
+  assert (Fs : forall s', (forall x y, src_now x y (s' :: before) = src_now x y before) -> st_files ld (s' :: before))
+    by (intros s' E x y; rewrite E; apply HF).
+  assert (Ms : forall s', (forall x y, src_versions x y (s' :: before) = src_versions x y before) -> st_mods ld (s' :: before)).
+  { intros s' E b' d' c' M. rewrite E. apply (HM b' d' c' M). }
+  assert (O : forall p s', (forall q, last_install q (s' :: before) = last_install q before) ->
+              (forall x y, src_now x y (s' :: before) = src_now x y before) ->
+              (forall x y, src_versions x y (s' :: before) = src_versions x y before) ->
+              (forall c, conf_path c (s' :: before) = conf_path c before) -> nconf (s' :: before) = nconf before ->
+              files_present_from (s' :: before) r = true ->
+              own_source (ocons (option_map (fun k => [k]) (last_install p before)) (accounted_from (s' :: before) r))
+                         (map snd (ocons (build_at fs p) (loaded_gen true fs cf ld r)))).
+  { intros p s' E1 E2 E3 E4 E5 G. unfold build_at. rewrite H.
+    assert (R : own_source (accounted_from (s' :: before) r) (map snd (loaded_gen true fs cf ld r))).
+    { apply IH; [apply Hs, E1|intros c; rewrite E4; apply HC|rewrite E5; exact HL|apply Fs, E2|apply Ms, E3|exact G]. }
+    destruct (last_install p before) as [k|]; cbn [ocons option_map map snd own_source]; [|exact R].
+    split; [right; left; reflexivity|exact R]. }
+  destruct s as [p k st how|p|j|p how par|c|c|dr b p|dr b|dr b a sp|p]; cbn [loaded_gen accounted_from];
+    cbn [files_present_from] in GP.
+  - apply IH; try side Hs Fs Ms.
+    intros q. cbn [fread last_install]. destruct (Nat.eqb p q); [reflexivity|apply H].
+  - apply O; try reflexivity; exact GP.
+  - apply IH; try side Hs Fs Ms.
+  - destruct (Nat.eqb how 3) eqn:E3.
+    + apply IH; try side Hs Fs Ms; [|rewrite upd_length; cbn [nconf]; rewrite E3; exact HL].
+      intros c. cbn [conf_path]. rewrite E3. destruct (Nat.eqb par c) eqn:E.
+      * apply Nat.eqb_eq in E. subst c. rewrite nth_error_upd_same, HC. reflexivity.
+      * apply Nat.eqb_neq in E. rewrite nth_error_upd_other by exact E. apply HC.
+    + apply IH; try side Hs Fs Ms; [|rewrite app_length; cbn [nconf length]; rewrite E3, HL; apply Nat.add_1_r].
+      intros c. cbn [conf_path]. rewrite E3, nth_error_snoc, HL. destruct (Nat.eqb (nconf before) c); [reflexivity|apply HC].
+  - rewrite HC. destruct (conf_path c before) as [p|]; cbn [cert_at].
+    + apply O; try reflexivity; exact GP.
+    + cbn [option_map ocons]. apply IH; try side Hs Fs Ms.
+  - apply IH; try side Hs Fs Ms.
+  - apply IH; try side Hs Fs Ms; [apply st_files_write; exact HF|].
+    intros b' d' c' M. cbn [cf_write mods] in M. specialize (HM b' d' c' M). cbn [src_versions].
+    destruct (same_file d' b' dr b); [right|]; exact HM.
+  - apply IH; try side Hs Fs Ms. apply st_files_unlink; exact HF.
+  - apply andb_true_iff in GP as [Gn GP]. destruct (src_now dr b before) as [pn|] eqn:N; [|discriminate].
+    destruct (load_module_own ld before dr b pn HF HM N) as [L1 L2].
+    pose proof (load_module_cfiles true ld dr b) as L3.
+    destruct (load_module true ld dr b) as [oc ld']. cbn [fst snd] in L1, L2, L3. cbn [map own_source]. split.
+    + destruct oc as [p|]; [|left; reflexivity]. specialize (L1 p eq_refl).
+      rewrite (build_slot_spec fs before p H). cbn [snd].
+      destruct (last_install p before) as [k|] eqn:LI; [|left; reflexivity]. right.
+      apply in_flat_map. exists p. split; [exact L1|]. rewrite LI. left. reflexivity.
+    + apply IH; try side Hs Fs Ms. intros x y. rewrite L3. apply HF.
+  - apply O; try reflexivity; exact GP.
+Qed.
+
+Lemma deploy_own_source d : files_present d = true -> own_source (accounted d) (deploy_certs d).
+Proof.
+  intros GP. apply loaded_own_source_gen; try assumption;
+    [intros p; reflexivity|intros [|c]; reflexivity|reflexivity|intros x y; reflexivity|intros b d0 c0; discriminate].
+Qed.
+
+Lemma deploy_own_source_keys d : files_present d = true -> own_source (accounted d) (deploy_keys d).
+Proof. intros H. rewrite deploy_keys_certs. apply deploy_own_source, H. Qed.
+
+Lemma own_source_b_iff al : forall certs, own_source_b al certs = true <-> own_source al certs.
+Proof.
+  induction al as [|a al IH]; intros [|c certs]; cbn [own_source_b own_source]; try tauto; try (split; [discriminate|tauto]).
+  rewrite andb_true_iff, orb_true_iff, IH, Nat.eqb_eq, existsb_exists. split.
+  - intros [[E|[x [Hin E]]] R]; split; auto. apply Nat.eqb_eq in E. subst x. auto.
+  - intros [[E|Hin] R]; split; auto. right. exists c. split; [exact Hin|apply Nat.eqb_refl].
+Qed.
 
 (* where a configuration object comes from (fresh dict, copy.copy of another entity's configuration, reload of a
-   dict that served before) does not matter: only the path it names when the entity is built *)
+   dict that served before) does not matter: only the path it names when the entity is built; nor does it matter
+   through which entry point, and under which spelling of its name, a configuration file is loaded *)
 Definition forget_origin (s : dstep) : dstep :=
-  match s with DConf p how par => if Nat.eqb how 3 then s else DConf p 0 0 | _ => s end.
+  match s with
+  | DConf p how par => if Nat.eqb how 3 then s else DConf p 0 0
+  | DLoadFile dr b _ _ => DLoadFile dr b 0 0
+  | _ => s
+  end.
 
-Lemma loaded_forget_origin d : forall fs cf, loaded fs cf (map forget_origin d) = loaded fs cf d.
+Lemma loaded_forget_origin fixed d : forall fs cf ld,
+  loaded_gen fixed fs cf ld (map forget_origin d) = loaded_gen fixed fs cf ld d.
 Proof.
-  induction d as [|s r IH]; intros fs cf; [reflexivity|].
-  destruct s as [p k st how|p|j|p how par|c|c]; cbn [map forget_origin loaded]; try (rewrite !IH; reflexivity).
-  destruct (Nat.eqb how 3) eqn:E3; cbn [loaded]; [rewrite E3|cbn [Nat.eqb]]; apply IH.
+  induction d as [|s r IH]; intros fs cf ld; [reflexivity|].
+  destruct s as [p k st how|p|j|p how par|c|c|dr b p|dr b|dr b a sp|p]; cbn [map forget_origin loaded_gen];
+    try (rewrite !IH; reflexivity).
+  - destruct (Nat.eqb how 3) eqn:E3; cbn [loaded_gen]; [rewrite E3|cbn [Nat.eqb]]; apply IH.
+  - destruct (load_module fixed ld dr b) as [oc ld']. rewrite IH. reflexivity.
 Qed.
 
 Lemma lineage_irrelevant d :
   deploy_keys (map forget_origin d) = deploy_keys d /\ deploy_certs (map forget_origin d) = deploy_certs d.
-Proof. unfold deploy_keys, deploy_certs. rewrite loaded_forget_origin. split; reflexivity. Qed.
+Proof. unfold deploy_keys, deploy_certs, loaded. rewrite loaded_forget_origin. split; reflexivity. Qed.
 
 Section Deploy.
   Variable sigv : Type.
@@ -645,11 +916,25 @@ Section Deploy.
     wrun sigv sign verify (kof (deploy_keys d)) ws wsched (init_state sigv (kof (deploy_keys d)) g ps).
 
   Lemma deploy_pool_holds d g ps ws wsched :
+    files_present d = true -> no_reedit d = true ->
     spec sigv verify {| keys := published d; gon := g; progs := ps; sched := wsched |}
          (observe_all sigv verify (deploy_certs d) (outs sigv (dfinal d g ps ws wsched))).
   Proof.
-    unfold dfinal. destruct (deploy_published d) as [-> ->].
+    intros GP GE. unfold dfinal. destruct (deploy_published d GP GE) as [-> ->].
     exact (pool_holds sigv sign verify verify_ideal {| keys := published d; gon := g; progs := ps; sched := wsched |} ws).
+  Qed.
+
+  (* configuration sources of every kind, files edited or not: every entity holds a certificate its OWN source
+     accounts for, and every signature verifies under the certificates of exactly the entities that hold the
+     caller's pair *)
+  Lemma deploy_source_pool_holds d g ps ws wsched :
+    files_present d = true ->
+    own_source (accounted d) (deploy_certs d) /\
+    spec sigv verify {| keys := deploy_certs d; gon := g; progs := ps; sched := wsched |}
+         (observe_all sigv verify (deploy_certs d) (outs sigv (dfinal d g ps ws wsched))).
+  Proof.
+    intros GP. split; [apply deploy_own_source, GP|]. unfold dfinal. rewrite deploy_keys_certs.
+    exact (pool_holds sigv sign verify verify_ideal {| keys := deploy_certs d; gon := g; progs := ps; sched := wsched |} ws).
   Qed.
 End Deploy.
 
@@ -728,3 +1013,67 @@ Example lineage_witness :
   deploy_keys lineage_deploy = [10; 20; 30; 40] /\ deploy_certs lineage_deploy = [10; 20; 30; 40] /\
   published lineage_deploy = [10; 20; 30; 40].
 Proof. vm_compute. auto. Qed.
+
+(* ---------- configuration FILES ---------- *)
+(* two tenants, configuration files of the SAME base name in two directories: a/conf.py names path 0 (pair 10),
+   b/conf.py names path 1 (pair 20); each is loaded once *)
+Definition tenants_deploy : list dstep :=
+  [DInstall 0 10 7 0; DInstall 1 20 7 0; DWrite 0 0 0; DWrite 1 0 1; DLoadFile 0 0 0 0; DLoadFile 1 0 2 1].
+
+Example tenants_now :
+  files_present tenants_deploy = true /\ no_reedit tenants_deploy = true /\
+  deploy_keys tenants_deploy = [10; 20] /\ deploy_certs tenants_deploy = [10; 20] /\
+  published tenants_deploy = [10; 20] /\ accounted tenants_deploy = [[10]; [20]].
+Proof. vm_compute. auto 10. Qed.
+
+(* before ca0d12ee the second tenant got the first tenant's whole configuration: it signs with pair 10 *)
+Lemma loader_v0_wrong_tenant :
+  deploy_keys_v0 tenants_deploy = [10; 10] /\ deploy_certs_v0 tenants_deploy = [10; 10].
+Proof. vm_compute. auto. Qed.
+
+Lemma loader_v0_refuted :
+  exists d, files_present d = true /\ no_reedit d = true /\ ~ own_source (accounted d) (deploy_certs_v0 d).
+Proof.
+  exists tenants_deploy. split; [reflexivity|]. split; [reflexivity|].
+  intros H. apply own_source_b_iff in H. vm_compute in H. discriminate.
+Qed.
+
+(* the loader as it is: a file EDITED after its first load is answered from sys.modules - the entity built afterwards
+   works with what its own file said before (pair 10), not with what it says now (pair 20): own source, not fresh *)
+Definition stale_deploy : list dstep :=
+  [DInstall 0 10 7 0; DInstall 1 20 7 0; DWrite 0 0 0; DLoadFile 0 0 0 0; DWrite 0 0 1; DLoadFile 0 0 0 0].
+
+Example stale_witness :
+  files_present stale_deploy = true /\ no_reedit stale_deploy = false /\
+  deploy_certs stale_deploy = [10; 10] /\ published stale_deploy = [10; 20] /\
+  accounted stale_deploy = [[10]; [20; 10]] /\ own_source_b (accounted stale_deploy) (deploy_certs stale_deploy) = true.
+Proof. vm_compute. auto 10. Qed.
+
+Lemma loader_stale_not_fresh : exists d, files_present d = true /\ deploy_certs d <> published d.
+Proof. exists stale_deploy. split; [reflexivity|]. vm_compute. discriminate. Qed.
+
+(* the second directory's file of that name is executed anew at every load: its edits ARE seen *)
+Example second_tenant_edits_seen :
+  deploy_certs [DInstall 0 10 7 0; DInstall 1 20 7 0; DInstall 2 30 7 0; DWrite 0 0 0; DWrite 1 0 1; DLoadFile 0 0 0 0;
+                DLoadFile 1 0 0 0; DWrite 1 0 2; DLoadFile 1 0 0 0] = [10; 20; 30].
+Proof. vm_compute. reflexivity. Qed.
+
+(* the loader as it is (finding C20-F3): a configuration file that does NOT exist is answered by the module of that
+   base name loaded before from another directory - the entity is a clone of the other tenant *)
+Definition missing_deploy : list dstep := [DInstall 0 10 7 0; DWrite 0 0 0; DLoadFile 0 0 0 0; DLoadFile 1 0 0 0].
+
+Example missing_witness :
+  files_present missing_deploy = false /\ deploy_certs missing_deploy = [10; 10] /\ accounted missing_deploy = [[10]; []].
+Proof. vm_compute. auto. Qed.
+
+Lemma loader_missing_refuted : exists d, ~ own_source (accounted d) (deploy_certs d).
+Proof. exists missing_deploy. intros H. apply own_source_b_iff in H. vm_compute in H. discriminate. Qed.
+
+(* ... or by the file of that name in a directory an EARLIER load left on sys.path *)
+Example missing_via_sys_path :
+  deploy_certs [DInstall 0 10 7 0; DWrite 0 0 0; DWrite 0 1 0; DLoadFile 0 0 0 0; DLoadFile 1 1 0 0] = [10; 10].
+Proof. vm_compute. reflexivity. Qed.
+
+(* before anything of that name was loaded, and with no directory on sys.path that has it, the load raises *)
+Example missing_raises : deploy_certs [DInstall 0 10 7 0; DWrite 0 0 0; DLoadFile 1 0 0 0; DLoadFile 0 0 0 0] = [0; 10].
+Proof. vm_compute. reflexivity. Qed.
